@@ -1361,6 +1361,164 @@ def loopback(ctx, nchan, total, label, plan=None, window=None, cfg=None):
     return problems, plan, comp
 
 
+def _read_n(chan, n, stderr=False, limit=20.0):
+    """Read up to n bytes (or until EOF / `limit` seconds without completion)."""
+    chan.settimeout(2.0)
+    out = b""
+    t_end = time.time() + limit
+    while len(out) < n and time.time() < t_end:
+        try:
+            x = chan.recv_stderr(n - len(out)) if stderr else chan.recv(n - len(out))
+        except socket.timeout:
+            continue
+        if not x:
+            break
+        out += x
+    return out
+
+
+def concurrent_open(ctx, accept_outbound):
+    """Channels opened CONCURRENTLY FROM BOTH SIDES of one transport, at the exact point where ids are allocated:
+    while the server's reader thread is inside check_channel_request for an inbound session (id allocated, channel
+    not yet registered), another server thread opens an outbound x11 channel (accepted by the client through a
+    request_x11 handler, or refused).  No timing: the callback waits until the other thread has registered its
+    channel.  Oracle: every byte written on a channel arrives on that channel, both directions, plus exit status."""
+    import paramiko
+    from _loop import LoopSocket
+    rng = ctx.rng
+    st = {"armed": False}
+    label = "concurrent-open-%s" % ("accepted" if accept_outbound else "refused")
+
+    class Srv(paramiko.ServerInterface):
+        def check_auth_none(self, username):
+            return paramiko.AUTH_SUCCESSFUL
+
+        def get_allowed_auths(self, username):
+            return "none"
+
+        def check_channel_exec_request(self, channel, command):
+            return True
+
+        def check_channel_x11_request(self, channel, single_connection, auth_protocol, auth_cookie, screen_number):
+            return True
+
+        def check_channel_request(self, kind, chanid):
+            if st["armed"]:
+                st["armed"] = False
+                before = len(ts._channels)
+                box = st["box"] = {}
+
+                def other():
+                    try:
+                        box["chan"] = ts.open_x11_channel(("127.0.0.1", 6010))
+                    except BaseException as e:  # noqa
+                        box["exc"] = repr(e)
+
+                t = st["thread"] = threading.Thread(target=other, daemon=True)
+                t.start()
+                t_end = time.time() + 20
+                while len(ts._channels) <= before and t.is_alive() and time.time() < t_end:
+                    time.sleep(0.002)
+                st["registered_inside"] = len(ts._channels) > before
+            return paramiko.OPEN_SUCCEEDED
+
+    def blob(n, lo, hi):
+        return bytes(rng.randrange(lo, hi) for _ in range(n))
+
+    want = {"c1->s1": blob(2900, 0, 256), "s1->c1": blob(3100, 0, 128), "s1->c1 stderr": blob(700, 128, 256),
+            "c0->s0": blob(1500, 0, 256), "s0->c0": blob(1700, 0, 128), "xs->xc": blob(1300, 0, 256),
+            "xc->xs": blob(900, 0, 256)}
+    status = {"s1": rng.choice(STATUSES), "s0": rng.choice(STATUSES)}
+    got, info = {}, {}
+    sa, sb = LoopSocket(), LoopSocket()
+    sa.link(sb)
+    tc, ts = paramiko.Transport(sa), paramiko.Transport(sb)
+    tc.set_log_channel(LOGNAME)
+    ts.set_log_channel(LOGNAME)
+    try:
+        ts.add_server_key(paramiko.RSAKey.from_private_key_file(os.path.join(ctx.repo, "tests", "_support", "rsa.key")))
+        ts.start_server(threading.Event(), Srv())
+        tc.start_client(timeout=60)
+        tc.auth_none("verif")
+        c0 = tc.open_session(timeout=60)
+        s0 = ts.accept(60)
+        inbound = []
+        if accept_outbound:
+            c0.request_x11(handler=lambda chan, addr: inbound.append(chan))
+        c0.exec_command("first")
+        st["armed"] = True
+        c1 = tc.open_session(timeout=60)            # the server opens its x11 channel inside this one's callback
+        s1 = ts.accept(60)
+        if "thread" in st:
+            st["thread"].join(30)
+        box = st.get("box", {})
+        xs = box.get("chan")
+        xc = inbound[0] if inbound else None
+        info = {"outbound": "opened" if xs is not None else box.get("exc", "not attempted"),
+                "other_thread_registered_inside_callback": st.get("registered_inside"),
+                "server_ids": {"s0": getattr(s0, "chanid", None), "s1": getattr(s1, "chanid", None),
+                               "x11": getattr(xs, "chanid", None)}}
+        if s1 is None:
+            got["accept"] = "server never got the second session channel"
+        else:
+            c1.exec_command("second")
+            c1.sendall(want["c1->s1"])
+            c0.sendall(want["c0->s0"])
+            s1.sendall(want["s1->c1"])
+            s1.sendall_stderr(want["s1->c1 stderr"])
+            s0.sendall(want["s0->c0"])
+            if xs is not None and xc is not None:
+                xs.sendall(want["xs->xc"])
+                xc.sendall(want["xc->xs"])
+                got["xs->xc"] = _read_n(xc, len(want["xs->xc"]))
+                got["xc->xs"] = _read_n(xs, len(want["xc->xs"]))
+            got["c1->s1"] = _read_n(s1, len(want["c1->s1"]))
+            got["c0->s0"] = _read_n(s0, len(want["c0->s0"]))
+            got["s1->c1"] = _read_n(c1, len(want["s1->c1"]))
+            got["s1->c1 stderr"] = _read_n(c1, len(want["s1->c1 stderr"]), stderr=True)
+            got["s0->c0"] = _read_n(c0, len(want["s0->c0"]))
+            s1.send_exit_status(status["s1"])
+            s0.send_exit_status(status["s0"])
+            for nm, ch in (("s1", c1), ("s0", c0)):
+                t_end = time.time() + 20
+                while not ch.exit_status_ready() and time.time() < t_end:
+                    time.sleep(0.01)
+                got["status " + nm] = ch.exit_status if ch.exit_status_ready() else None
+    except Exception as e:  # noqa
+        import traceback
+        got["exception"] = repr(e) + " " + traceback.format_exc()[-500:]
+    finally:
+        for t_ in (tc, ts):
+            try:
+                t_.close()
+            except Exception:
+                pass
+    ctx.count((label, repr(sorted((k, len(v)) for k, v in want.items()))), kind=label)
+    bad = {}
+    if "exception" in got or "accept" in got:
+        bad["session"] = got.get("exception") or got.get("accept")
+    expect_x = accept_outbound
+    for k, v in want.items():
+        if k in ("xs->xc", "xc->xs") and (not expect_x or k not in got):
+            continue
+        if k in got and got[k] != v:
+            bad[k] = {"expected_len": len(v), "got_len": len(got[k]), "got_head": got[k][:24], "expected_head": v[:24]}
+        elif k not in got and "session" not in bad:
+            bad[k] = "not transferred"
+    for nm in ("s1", "s0"):
+        if ("status " + nm) in got and got["status " + nm] != status[nm]:
+            bad["status " + nm] = {"expected": status[nm], "got": got["status " + nm]}
+    if accept_outbound and info.get("outbound") != "opened" and "session" not in bad:
+        bad["x11"] = info.get("outbound")
+    if bad:
+        ctx.fail("concurrent-open-wrong-channel",
+                 "channels opened concurrently from both sides of one transport: bytes written on a channel do not "
+                 "arrive on that channel (lost / delivered elsewhere / channel unlinked)",
+                 case={"concurrent_open": label, "accept_outbound": accept_outbound, **info},
+                 expected={k: len(v) for k, v in want.items()}, observed=bad)
+    ctx.sample({"concurrent-open": {"label": label, **info, "problems": len(bad)}})
+
+
 def run_loopback(ctx, nchan, total, label, big=None, cfg=None):
     cfg = dict(cfg or {})
     for attempt in (0, 1):
@@ -1495,6 +1653,9 @@ def loopbacks(ctx):
                  cfg={"max_packet": 65536, "chan_max_packet": [65536, 131072][ctx.seed % 2]})
     run_loopback(ctx, 1, 0, "bigsend-2m", big=(2 ** 21, 512 * 1024 + ctx.rng.randrange(0, 100000), 96 * 1024),
                  cfg={"max_packet": PACKET_GRID[rot], "chan_max_packet": PACKET_GRID[rot]})
+    # channels opened concurrently from both sides, at the id-allocation point (uniqueness itself is C23's)
+    for accept_outbound in ((True, False) if ctx.thorough or ctx.seed % 2 == 0 else (False, True)):
+        concurrent_open(ctx, accept_outbound)
     if ctx.thorough:
         for k in range(8):
             run_loopback(ctx, 8, 512 * 1024, "large%d" % k,
@@ -1529,6 +1690,8 @@ def replay(ctx, rep):
         bad = model_mm(ctx, "run_case", "(list Z * list Z * list Z * list op)", [(coq_case(c), canon)])
         if bad:
             ctx.disagree("replayed history differs from the model", case=case, impl=canon)
+    elif "concurrent_open" in case:
+        concurrent_open(ctx, bool(case.get("accept_outbound")))
     elif case.get("pair"):
         dispatch, _ = build_dispatch()
         ops = []
